@@ -50,8 +50,13 @@ def inspect_sha_crypt(hash: str, cls: type[_TShaCryptInfo]) -> _TShaCryptInfo | 
         return None
 
     rounds = match.group("rounds")
+    try:
+        rounds = int(rounds) if rounds is not None else None
+    except ValueError:
+        # (python refuses to convert absurdly long digit strings)
+        return None
     return cls(
-        rounds=int(rounds) if rounds is not None else None,
+        rounds=rounds,
         salt=match.group("salt"),
         hash=match.group("hash"),
     )
